@@ -143,7 +143,7 @@ def rule_unw(ctx, rep, rule="R-UNW", da=False):
             key = b["key"]
             cls, exp = sig_class(F, b)
             base = exp if cls == "DROP-IMPL" else 0
-            prs = [p for p in A.paths[key] if p.exit == "unw"]
+            prs = [p for p in A.paths[key] if p.exit == "unw" and not declined_sole_owner(F, E, b, p)]
             if not prs:
                 continue
             npaths += len(prs)
@@ -183,6 +183,38 @@ def rule_unw(ctx, rep, rule="R-UNW", da=False):
         rep.notes.append("leak only on an internal-invariant panic (%s), not triggerable by user code, tolerated: %s" % ("/".join(sorted(origins)), k))
     rep.evaluations += npaths
     return npaths
+
+
+def declined_sole_owner(F, E, b, p):
+    """The path continues after a checked conversion *declined* (`Err` / `None` of a function that reports the uniqueness verdict
+    through its variant) a handle that the function received as a by-value `UniqueArc`: by that type's invariant (C03) the count
+    is 1 and the test cannot decline - the arm is unreachable, which is what code like `Err(_) => unreachable!()` states."""
+    uniq = [i + 1 for i, t in enumerate(b.get("inputs", [])) if F.handle_name(t) == "UniqueArc"]
+    if not uniq:
+        return False
+    from .props import c03
+
+    G = F.__dict__.get("_gates_cache")
+    if G is None:
+        G = F.__dict__["_gates_cache"] = c03.Gates(F)
+    dg = c03.derived_gates(F, G, E)
+    B = None
+    for e in p.events:
+        d = e["detail"] if isinstance(e["detail"], dict) else {}
+        if e["kind"] == "CALL" and d.get("callee") in dg and d.get("tag") in ("Err", "None"):
+            try:
+                t = b["blocks"][e["bb"]]["term"]
+            except (IndexError, KeyError, TypeError):
+                continue
+            if t["k"] != "call" or not t["args"]:
+                continue
+            pl = operand_place(t["args"][0])
+            if pl is None:
+                continue
+            B = B or cfg.Body(b)
+            if set(uniq) & c03.root_args(B, pl["l"]):
+                return True
+    return False
 
 
 def _from_debug_assert(p):
